@@ -333,7 +333,7 @@ func (k vOKPPub) PublicKey() (jwk.Key, error) { return k, nil }
 // EdDSA: an Ed25519 key signs the message and the signature verifies; another signature or message does not; an OKP
 // key on another curve (X25519) or a key of another kind is ErrKeyTypeMismatch on both sides.
 //
-//verif:harness prop=C03 name=eddsa_dispatch unwind=80 solver=z3-new
+//verif:harness prop=C03 name=eddsa_dispatch unwind=80 solver=cvc5-bv qtimeout=60
 func VerifEdDSADispatch() {
 	zzverifstubs.Init()
 	zzverif.UFLeftInverse("ED25519", "ED25519_INV")
